@@ -199,20 +199,22 @@ def zreal(v):
     raise Unsupported(f"real term of {type(v).__name__}")
 
 
-def mk_int(e):
+def mk_int(e, simplify=False):
     """Wrap an int term; constants collapse to Python ints."""
     if isinstance(e, int):
         return e
-    e = z3.simplify(e)
+    if simplify:
+        e = z3.simplify(e)
     if z3.is_int_value(e):
         return e.as_long()
     return SInt(e)
 
 
-def mk_bool(e):
+def mk_bool(e, simplify=False):
     if isinstance(e, bool):
         return e
-    e = z3.simplify(e)
+    if simplify:
+        e = z3.simplify(e)
     if z3.is_true(e):
         return True
     if z3.is_false(e):
@@ -268,25 +270,42 @@ for _lo, _hi in _ranges(lambda c: unicodedata.category(c) == "Nd"):
 ISDIGIT_RANGES = _ranges(str.isdigit)
 
 
+_TERM_CACHE = {}  # (term id, table id) -> (term kept alive, result)
+
+
 def in_ranges(c, ranges):
     """Membership of an atom (int or term) in a list of inclusive ranges: bool or z3 Bool."""
     if isinstance(c, int):
         return any(lo <= c <= hi for lo, hi in ranges)
-    return z3.Or([z3.And(c >= lo, c <= hi) if lo != hi else c == lo for lo, hi in ranges])
+    key = (c.get_id(), id(ranges))
+    hit = _TERM_CACHE.get(key)
+    if hit is not None:
+        return hit[1]
+    r = z3.Or([z3.And(c >= lo, c <= hi) if lo != hi else c == lo for lo, hi in ranges])
+    _TERM_CACHE[key] = (c, r, ranges)
+    return r
 
 
 def digit_val(c):
     if isinstance(c, int):
         return int(unicodedata.decimal(chr(c)))
+    key = (c.get_id(), "digit_val")
+    hit = _TERM_CACHE.get(key)
+    if hit is not None:
+        return hit[1]
     e = z3.IntVal(0)
     for lo, hi in DIGIT_BLOCKS:
         e = z3.If(z3.And(c >= lo, c <= hi), c - lo, e)
+    _TERM_CACHE[key] = (c, e)
     return e
 
 
 # ------------------------------------------------------------------------------------------------
 class Stats:
     def __init__(self):
+        self.reset()
+
+    def reset(self):
         self.sat = self.unsat = self.unknown = 0
         self.solver_time = 0.0
 
@@ -300,6 +319,7 @@ class Path:
     the untaken feasible alternatives are pushed to `pending` (list of decision lists)."""
 
     symbolic = True
+    forker = None  # fork-mode exploration: split(n) -> index taken by this process
 
     def __init__(self, prefix=(), timeout_ms=10000, stats=None):
         self.prefix = list(prefix)
@@ -319,6 +339,8 @@ class Path:
         self.cuts = []
         self.queries = []  # exported final property queries (smt2 text), sampled
         self.memo = {}  # per-path memo for uninterpreted environment functions
+        self.dirty = False  # constraints were added without a feasibility check
+        self.decided = {}  # term id -> (term kept alive, truth value implied by the PC)
 
     # -- solver -----------------------------------------------------------------------------
     def _check(self, *extra):
@@ -353,6 +375,12 @@ class Path:
     def _commit(self, cond, model=None):
         self.solver.add(cond)
         self.pc.append(cond)
+        # remember decided conditions: structurally identical conditions asked again (the same
+        # line is decoded more than once in a step) are answered without the solver
+        if z3.is_not(cond):
+            self.decided[cond.arg(0).get_id()] = (cond, False)
+        else:
+            self.decided[cond.get_id()] = (cond, True)
         if model is not None:
             self.model = model
         elif self.model is not None and self._holds_in_model(cond) is not True:
@@ -367,6 +395,7 @@ class Path:
                     raise Infeasible()
                 continue
             self._commit(c)
+            self.dirty = True
 
     def assume(self, cond):
         cond = zbool(cond) if not isinstance(cond, z3.BoolRef) else cond
@@ -394,6 +423,13 @@ class Path:
             return True
         if z3.is_false(cond):
             return False
+        known = self.decided.get(cond.get_id())
+        if known is not None:
+            return known[1]
+        if z3.is_not(cond):
+            known = self.decided.get(cond.arg(0).get_id())
+            if known is not None:
+                return not known[1]
         if self.pos < len(self.prefix):
             d = self.prefix[self.pos]
             self.pos += 1
@@ -412,12 +448,19 @@ class Path:
         else:
             t, mt = self._check(cond)
             if t:
+                self.dirty = False
                 f, mf = self._check(ncond)
+            elif self.dirty:
+                f, mf = self._check(ncond)
+                self.dirty = False
             else:
                 f, mf = True, None  # PC is satisfiable by construction
         if t and f:
-            self.pending.append(self.decisions + [0])
-            d = 1
+            if self.forker is not None:
+                d = 1 if self.forker.split(2) == 0 else 0
+            else:
+                self.pending.append(self.decisions + [0])
+                d = 1
         elif t:
             d = 1
         elif f:
@@ -435,6 +478,8 @@ class Path:
             return 0
         if self.pos < len(self.prefix):
             d = self.prefix[self.pos]
+        elif self.forker is not None:
+            d = self.forker.split(n)
         else:
             d = 0
             for k in range(n - 1, 0, -1):
